@@ -46,7 +46,7 @@ PID = "C17"
 ENGINE = ("E1 bounded-exhaustive enumeration of config forests per hardware class against a declarative reference of "
           "'completion with defaults' (own rule-text parser, own word matcher)")
 RULE = ("tree/ordered: one case = (hardware class, forest t); forests over the class's row universe (every default row, "
-        "one row per '!' pattern, and per depth: the first valued default with another value ('stp mode rstp'), the first "
+        "one row per '!' pattern, a second row for the first '!' pattern that holds a default, and per depth: the first valued default with another value ('stp mode rstp'), the first "
         "default plus a word, the first default negated, a foreign row; rows only at the depth the rule text gives them, "
         "+1 for the foreign row), distinct by construction of the enumerators; "
         "non-trivial = some rule application is decided by an explicit row (a default suppressed by, or identical to, an "
@@ -67,6 +67,8 @@ ASSUMPTIONS = [
     "pattern on either side); a default inside a block that exists on one side only, or suppressed on one side by a matching "
     "row, is by construction on one side and is counted as outcome default-in-diff[parent-one-side|suppressed-one-side] "
     "(JUDGE_CONTEXT_DEPENDENT turns these into violations) - clause 5 still judges those places",
+    "part pair explores configurations shaped as the rule text allows: a row has children only if a rule with children "
+    "matches it, or it is the foreign row ('stp mode mstp' is never a block); part tree has no such restriction",
     "gen.py's three completion lines are replicated (merge_dicts(t, implicit.config(t, rules))), gen.old_new is not executed",
 ]
 BUDGET = {"quick": 90, "thorough": 900}
@@ -317,9 +319,8 @@ def check_tree(c, t_list, v):
         v({"kind": clause, "class": name, "rule": rule_label(rpath), "direction": direction, "parent": origin}, case,
           "at place %r: default %s; m=%r" % (list(place), direction, m_list))
     # 2
-    m_before = env.tree_to_list(m)
     again = implicit.config(m, c["rules"])
-    if env.tree_to_list(m) != m_before:
+    if env.tree_to_list(m) != m_list:
         v({"kind": "input-mutated", "class": name, "by": "implicit.config(m)"}, case, "")
     for extra in R.subtree_missing(env.tree_to_list(again), m_list):
         v({"kind": "idempotence", "class": name, "second_pass_adds": rule_label(extra[-2:]) if len(extra) > 1 else extra[0],
@@ -573,15 +574,15 @@ def check_pair(c, t_list, u_list, v):
             if (place, row) not in t_set and (place, row) not in u_set:
                 dabs[(place, row)] = None
     exc = None
-    any_conflict = False
     # same head: a default next to an explicit row of u that differs from it in the value only
     conflicts = [(place, "added", d, h, "<same head>") for (place, d) in dabs
                  for h, _ in (at(u_list, place) or []) if R.same_head(h, d, c["neg"])]
+    all_conflicts = list(conflicts)
     try:
         diff, pre = diff_and_pre(c, old, new)
         conflicts += [x for x in conflicts_in(pre, dabs, t_set, u_set) if x[:4] not in [y[:4] for y in conflicts]]
         # judged where the default is one-sided for no other reason than the block being new (or not at all one-sided)
-        any_conflict = bool(conflicts)
+        all_conflicts = list(conflicts)
         conflicts = [x for x in conflicts if situation_of(c, x[0], x[2], t_list, u_list, old_l, new_l)[0]
                      in ("same-context", "parent-one-side")]
         patch = patch_of(c, pre)
@@ -594,12 +595,16 @@ def check_pair(c, t_list, u_list, v):
             return "raises-also-without-implicit:%s" % type(e2).__name__, False
         detail = ("%s: %s\nold=%r\nnew=%r\n(the same pair without completion gives a patch)"
                   % (type(exc).__name__, exc, old_l, new_l))
-        for (place, op, d, h, raw_rule) in conflicts[:1]:
+        # a crash belongs to the conflict whose two rows the exception names
+        def named(xs):
+            return [x for x in xs if repr(x[2]) in str(exc) and repr(x[3]) in str(exc)]
+        judged, other = named(conflicts), named(all_conflicts)
+        for (place, op, d, h, raw_rule) in judged[:1]:
             report_conflict(c, v, case, place, op, d, h, raw_rule, "raises " + type(exc).__name__, detail)
-        if not any_conflict:
+        if not judged and not other:
             v({"kind": "patch-crash-with-implicit", "class": name, "exception": type(exc).__name__}, case, detail)
-        return "raises-only-with-implicit:%s[%s]" % (type(exc).__name__, "judged conflict" if conflicts else
-                                                      "conflict via suppressing/negated row" if any_conflict else
+        return "raises-only-with-implicit:%s[%s]" % (type(exc).__name__, "judged conflict" if judged else
+                                                      "conflict via suppressing/negated row" if other else
                                                       "unattributed"), True
     cmds = walk_patch(patch)
     entries = [(p, r) for (p, r, op) in walk_diff(diff) if op in ("added", "removed", "moved")]
@@ -645,10 +650,27 @@ def report_conflict(c, v, case, place, op, d, h, raw_rule, effect, detail):
       % (list(place), h, d, op, "same head" if raw_rule == "<same head>" else "annet's rulebook rule %r" % raw_rule, effect, detail))
 
 
+def block_rows_only(c, forest, rules=None):
+    """part "pair" keeps configurations whose shape the rule text allows: only a row that a rule with children matches
+    (a block by the rule text) or the foreign row has children"""
+    rules = c["rules_ref"] if rules is None else rules
+    for r, ch in forest:
+        sub = R.child_rules(rules, r)
+        if ch and not sub and r != R.FOREIGN:
+            return False
+        if not block_rows_only(c, ch, sub):
+            return False
+    return True
+
+
+def pair_forests(c, k):
+    return [f for f in sforests_upto(c["rows"], k) if block_rows_only(c, f)]
+
+
 def run_pair(block, ctx):
     c = cls(block["cls"])
-    ts = list(sforests_upto(c["rows"], block["kt"]))
-    us = list(sforests_upto(c["rows"], block["ku"]))
+    ts = pair_forests(c, block["kt"])
+    us = pair_forests(c, block["ku"])
     if block["kt"] != block["ku"]:
         # the (2,2) pairs are in one of the two directions only
         if block["kt"] > block["ku"]:
